@@ -41,6 +41,9 @@ pub struct Input {
     pub block_order: u8,
     /// table identifiers differ from the property values they are built from
     pub alt_names: bool,
+    /// how the generators are driven: 0 = exactly as the two build.rs files do; bit 0: every value is asked for twice under two identifiers;
+    /// bit 1: parse once, emit twice (run_generators_cfg)
+    pub cfg: u8,
 }
 
 const SCRIPT_VALUES: [&str; 7] = ["Greek", "Hebrew", "Hiragana", "Katakana", "Han", "Latin", "Common"];
@@ -115,7 +118,7 @@ impl Input {
         json!({
             "ents": self.ents.iter().map(|e| json!([e.start, e.end, e.gc, e.ccc, e.bidi, e.dec, e.dtarget])).collect::<Vec<_>>(),
             "scripts": t(&self.scripts), "joining": t(&self.joining), "proplist": t(&self.proplist), "coreprops": t(&self.coreprops), "hangul": t(&self.hangul),
-            "block_order": self.block_order, "alt_names": self.alt_names,
+            "block_order": self.block_order, "alt_names": self.alt_names, "cfg": self.cfg,
             "unicode_data_txt": self.unicode_data_text(),
         })
     }
@@ -140,6 +143,7 @@ impl Input {
             hangul: t("hangul"),
             block_order: v["block_order"].as_u64().unwrap_or(0) as u8,
             alt_names: v["alt_names"].as_bool().unwrap_or(false),
+            cfg: v["cfg"].as_u64().unwrap_or(0) as u8,
         }
     }
 }
@@ -235,6 +239,96 @@ pub fn run_generators_x(ucd: &Path, out: &Path, alt: bool) -> Result<(), String>
         ucd_gen.add(Box::new(gc_gen));
         gen.add(Box::new(ucd_gen));
         gen.generate_code().map_err(e)?;
+    }
+    Ok(())
+}
+
+/// Other legitimate ways to drive the same generators (the tables asked for are the ones of the two build.rs files):
+/// `dup`: every holder gets a SECOND table generator for each value, under another identifier (suffix _dup), registered after all the
+/// first ones; `twice`: every holder parses the UCD directory once and is then asked to emit twice, into <out>/first and <out>/second.
+/// Without `twice` the files go to <out> through RustCodeGen + UcdFileGen as usual.
+pub fn run_generators_cfg(ucd: &Path, out: &Path, alt: bool, dup: bool, twice: bool) -> Result<(), String> {
+    use precis_tools::UcdCodeGen;
+    let e = |x: precis_tools::Error| format!("{x}");
+    let tn = |t: &str| if alt { format!("{t}_x") } else { t.to_string() };
+    let names = |t: &str| -> Vec<String> { if dup { vec![tn(t), format!("{}_dup", tn(t))] } else { vec![tn(t)] } };
+    let passes = if dup { 2 } else { 1 };
+    let mut files: Vec<(&str, Vec<Box<dyn UcdCodeGen>>)> = Vec::new();
+    {
+        let mut gc_gen = GeneralCategoryGen::new();
+        let mut script_gen: UnicodeGen<Script> = UnicodeGen::new();
+        let mut djt_gen: UnicodeGen<DerivedJoiningType> = UnicodeGen::new();
+        for k in 0..passes {
+            gc_gen.add(Box::new(ViramaTableGen::new(&names("virama")[k])));
+            for (n, t) in [("Greek", "Greek"), ("Hebrew", "Hebrew"), ("Hiragana", "Hiragana"), ("Katakana", "Katakana"), ("Han", "Han")] {
+                script_gen.add(Box::new(UcdTableGen::new(n, &names(t)[k])));
+            }
+            for (n, t) in [("D", "Dual_Joining"), ("L", "Left_Joining"), ("R", "Right_Joining"), ("T", "Transparent")] {
+                djt_gen.add(Box::new(UcdTableGen::new(n, &names(t)[k])));
+            }
+        }
+        files.push(("context_tables.rs", vec![Box::new(gc_gen), Box::new(script_gen), Box::new(djt_gen)]));
+    }
+    {
+        let mut gc_gen = GeneralCategoryGen::new();
+        let mut hangul_gen: UnicodeGen<HangulSyllableType> = UnicodeGen::new();
+        let mut prop_gen: UnicodeGen<Property> = UnicodeGen::new();
+        let mut core_prop_gen: UnicodeGen<CoreProperty> = UnicodeGen::new();
+        for k in 0..passes {
+            for (n, t) in [("Ll", "Lowercase_Letter"), ("Lu", "Uppercase_Letter"), ("Lo", "Other_Letter"), ("Nd", "Decimal_Number"), ("Lm", "Modifier_Letter"), ("Mn", "Nonspacing_Mark"), ("Mc", "Spacing_Mark"),
+                ("Cc", "Control"), ("Zs", "Space_Separator"), ("Sm", "Math_Symbol"), ("Sc", "Currency_Symbol"), ("Sk", "Modifier_Symbol"), ("So", "Other_Symbol"), ("Pc", "Connector_Punctuation"),
+                ("Pd", "Dash_Punctuation"), ("Ps", "Open_Punctuation"), ("Pe", "Close_Punctuation"), ("Pi", "Initial_Punctuation"), ("Pf", "Final_Punctuation"),
+                ("Po", "Other_Punctuation"), ("Lt", "Titlecase_Letter"), ("Nl", "Letter_Number"), ("No", "Other_Number"), ("Me", "Enclosing_Mark")] {
+                gc_gen.add(Box::new(UcdTableGen::new(n, &names(t)[k])));
+            }
+            gc_gen.add(Box::new(UnassignedTableGen::new(&names("Unassigned")[k])));
+            prop_gen.add(Box::new(UcdTableGen::new("Join_Control", &names("Join_Control")[k])));
+            prop_gen.add(Box::new(UcdTableGen::new("Noncharacter_Code_Point", &names("Noncharacter_Code_Point")[k])));
+            hangul_gen.add(Box::new(UcdTableGen::new("L", &names("Leading_Jamo")[k])));
+            hangul_gen.add(Box::new(UcdTableGen::new("V", &names("Vowel_Jamo")[k])));
+            hangul_gen.add(Box::new(UcdTableGen::new("T", &names("Trailing_Jamo")[k])));
+            core_prop_gen.add(Box::new(UcdTableGen::new("Default_Ignorable_Code_Point", &names("Default_Ignorable_Code_Point")[k])));
+        }
+        files.push(("precis_tables.rs", vec![Box::new(gc_gen), Box::new(hangul_gen), Box::new(prop_gen), Box::new(core_prop_gen)]));
+    }
+    {
+        // the bidi generator also emits the BidiClass enum: one generator per file
+        let mut gc_gen = GeneralCategoryGen::new();
+        gc_gen.add(Box::new(BidiClassGen::new(&tn("Bidi_Class_Table"))));
+        files.push(("bidi_class.rs", vec![Box::new(gc_gen)]));
+        let mut gc_gen = GeneralCategoryGen::new();
+        let mut gc_gen2 = GeneralCategoryGen::new();
+        for k in 0..passes {
+            gc_gen.add(Box::new(UcdTableGen::new("Zs", &names("space_separator")[k])));
+            gc_gen2.add(Box::new(WidthMappingTableGen::new(&names("wide_narrow_mapping")[k])));
+        }
+        files.push(("space_separator.rs", vec![Box::new(gc_gen)]));
+        files.push(("width_mapping.rs", vec![Box::new(gc_gen2)]));
+    }
+    if twice {
+        for sub in ["first", "second"] {
+            std::fs::create_dir_all(out.join(sub)).map_err(|x| x.to_string())?;
+        }
+        for (name, gens) in files.iter_mut() {
+            let mut fa = std::fs::File::create(out.join("first").join(*name)).map_err(|x| x.to_string())?;
+            let mut fb = std::fs::File::create(out.join("second").join(*name)).map_err(|x| x.to_string())?;
+            for g in gens.iter_mut() {
+                g.parse_unicode_file(ucd).map_err(e)?;
+                g.generate_code(&mut fa).map_err(e)?;
+                g.generate_code(&mut fb).map_err(e)?;
+            }
+        }
+    } else {
+        std::fs::create_dir_all(out).map_err(|x| x.to_string())?;
+        for (name, gens) in files {
+            let mut gen = RustCodeGen::new(out.join(name)).map_err(e)?;
+            let mut ucd_gen = UcdFileGen::new(ucd);
+            for g in gens {
+                ucd_gen.add(g);
+            }
+            gen.add(Box::new(ucd_gen));
+            gen.generate_code().map_err(e)?;
+        }
     }
     Ok(())
 }
@@ -631,6 +725,9 @@ pub fn check_tables(truth: &Truth, out: &Path, full_sweep: bool, with_props: boo
 pub fn check_tables_x(truth: &Truth, out: &Path, full_sweep: bool, with_props: bool, cross_check: bool) -> Result<Report, (String, String)> {
     let mut tables = read_all_tables(out, cross_check)?;
     for t in tables.iter_mut() {
+        if let Some(n) = t.name.strip_suffix("_DUP") {
+            t.name = n.to_string();
+        }
         if let Some(n) = t.name.strip_suffix("_X") {
             t.name = n.to_string();
         }
@@ -775,12 +872,28 @@ pub fn check_input_x(inp: &Input, dir: &Path, l: &mut Local, cross: bool) -> Che
     inp.write(&ucd_dir);
     let case = || json!({"op": "synthetic_ucd", "input": inp.json()});
     l.eval();
-    match guard(|| run_generators_x(&ucd_dir, &out, inp.alt_names)) {
+    let (cfg, cross) = (inp.cfg & 3, cross && inp.cfg & 3 == 0);
+    let out = if cfg != 0 { dir.join("out-cfg") } else { out };
+    if cfg != 0 {
+        let _ = std::fs::remove_dir_all(&out);
+    }
+    match guard(|| if cfg == 0 { run_generators_x(&ucd_dir, &out, inp.alt_names) } else { run_generators_cfg(&ucd_dir, &out, inp.alt_names, cfg & 1 != 0, cfg & 2 != 0) }) {
         Ok(Ok(())) => {}
         Ok(Err(e)) => return Err(Violation::new(case(), "generators accept a well-formed UCD input", format!("Err: {e}"))),
         Err(p) => return Err(Violation::new(case(), "generators accept a well-formed UCD input", format!("panic: {p}"))),
     }
     let truth = read_truth(&ucd_dir, true);
+    if cfg & 2 != 0 {
+        // both emissions must denote the input
+        if let Err((e, o)) = check_tables_x(&truth, &out.join("first"), false, true, false) {
+            return Err(Violation::new(case(), format!("first emission: {e}"), o));
+        }
+        l.label("parse_once_emit_twice");
+    }
+    if cfg & 1 != 0 {
+        l.label("every_table_under_two_identifiers");
+    }
+    let out = if cfg & 2 != 0 { out.join("second") } else { out };
     match check_tables_x(&truth, &out, false, true, cross) {
         Ok(rep) => {
             l.evals_n(rep.lookups);
@@ -880,7 +993,9 @@ pub fn input_strategy() -> BoxedStrategy<Input> {
                 }
                 out
             };
-            Input { ents, scripts: lay(sc, 0), joining: lay(jt, 1), proplist: lay(pl, 2), coreprops: lay(cp, 3), hangul: lay(hg, 4), block_order, alt_names: block_order & 1 == 1 }
+            // one input in four drives the generators in another legitimate way (duplicate tables / parse once, emit twice)
+            let cfg = if block_order & 0x0c == 0x0c { 1 + (block_order >> 4) % 3 } else { 0 };
+            Input { ents, scripts: lay(sc, 0), joining: lay(jt, 1), proplist: lay(pl, 2), coreprops: lay(cp, 3), hangul: lay(hg, 4), block_order, alt_names: block_order & 1 == 1, cfg }
         })
         .boxed()
 }
@@ -1083,6 +1198,46 @@ fn check_variation(which: u8, ops: &[VarOp], base_lines: &[ULine], dir: &Path, l
     r
 }
 
+/// the pinned directory `which` (0: 6.3.0, 1: the 16.0.0 UnicodeData next to the 6.3.0 property files) through the generators, every
+/// table at all code points; cfg 0: as the build.rs files drive them (also read by rustc); cfg 3: every table under two identifiers,
+/// parsed once and emitted twice, both emissions checked
+fn check_pinned(which: usize, cfg: u8, tag: &str, l: &mut Local) -> Check {
+    let dir = work_dir(tag);
+    let ucd_dir = dir.join("ucd");
+    std::fs::create_dir_all(&ucd_dir).unwrap();
+    link_pinned_props(&ucd_dir);
+    let src = ucd::data_dir().join(if which == 0 { "ucd63/UnicodeData.txt" } else { "ucd16/UnicodeData.txt" });
+    let _ = std::fs::remove_file(ucd_dir.join("UnicodeData.txt"));
+    std::os::unix::fs::symlink(src, ucd_dir.join("UnicodeData.txt")).unwrap();
+    let case = json!({"op": "pinned", "base": if which == 0 { "6.3.0" } else { "16.0.0" }, "cfg": cfg});
+    let r = if cfg == 0 {
+        // property files are the 6.3.0 ones in both cases (16.0.0 ships only UnicodeData in the repository)
+        check_dir_x(case, &ucd_dir, &dir.join("out"), true, true, l, true)
+    } else {
+        let out2 = dir.join("out-cfg");
+        match guard(|| run_generators_cfg(&ucd_dir, &out2, false, cfg & 1 != 0, cfg & 2 != 0)) {
+            Ok(Ok(())) => {
+                let truth = read_truth(&ucd_dir, true);
+                let mut r = Ok(());
+                for sub in if cfg & 2 != 0 { vec!["first", "second"] } else { vec![""] } {
+                    match check_tables_x(&truth, &out2.join(sub), true, true, false) {
+                        Ok(rep) => l.evals_n(rep.lookups),
+                        Err((e, o)) => {
+                            r = Err(Violation::new(case.clone(), format!("{sub} emission (every table under two identifiers; parsed once, emitted twice): {e}"), o));
+                            break;
+                        }
+                    }
+                }
+                r
+            }
+            Ok(Err(e)) => Err(Violation::new(case, "generators accept a well-formed UCD input", format!("Err: {e}"))),
+            Err(p) => Err(Violation::new(case, "generators accept a well-formed UCD input", format!("panic: {p}"))),
+        }
+    };
+    let _ = std::fs::remove_dir_all(&dir);
+    r
+}
+
 pub fn run(run: &Run) {
     run.set_rule(
         "Generator ('configurations'): (a) the pinned UCD 6.3.0 directory and the pinned 16.0.0 UnicodeData.txt, every table compared at all 1,114,112 code points; \
@@ -1107,21 +1262,13 @@ pub fn run(run: &Run) {
         if tid > 1 {
             return;
         }
-        let dir = work_dir(&format!("pinned{tid}"));
-        let ucd_dir = dir.join("ucd");
-        std::fs::create_dir_all(&ucd_dir).unwrap();
-        link_pinned_props(&ucd_dir);
-        let src = ucd::data_dir().join(if tid == 0 { "ucd63/UnicodeData.txt" } else { "ucd16/UnicodeData.txt" });
-        let _ = std::fs::remove_file(ucd_dir.join("UnicodeData.txt"));
-        std::os::unix::fs::symlink(src, ucd_dir.join("UnicodeData.txt")).unwrap();
-        l.cases += 1;
-        let case = json!({"op": "pinned", "base": if tid == 0 { "6.3.0" } else { "16.0.0" }});
-        // property files are the 6.3.0 ones in both cases (16.0.0 ships only UnicodeData in the repository)
-        match check_dir_x(case, &ucd_dir, &dir.join("out"), true, true, l, true) {
-            Ok(()) => l.nt(hash64(&("pinned", tid))),
-            Err(v) => run.violate(v),
+        for cfg in [0u8, 3] {
+            l.cases += 1;
+            match check_pinned(tid, cfg, &format!("pinned{tid}"), l) {
+                Ok(()) => l.nt(hash64(&("pinned", tid, cfg))),
+                Err(v) => run.violate(v),
+            }
         }
-        let _ = std::fs::remove_dir_all(&dir);
     });
 
     // (b) synthetic
@@ -1255,7 +1402,8 @@ pub fn replay(_run: &Run, case: &Value) -> Check {
             let (which, ops) = var_from_json(case);
             check_variation(which, &ops, &pinned_lines(which), &dir, &mut l)
         }
-        Some("pinned") | Some("regenerate_in_place") => Ok(()),
+        Some("pinned") => check_pinned(if case["base"].as_str() == Some("6.3.0") { 0 } else { 1 }, case["cfg"].as_u64().unwrap_or(0) as u8, &format!("replay-pinned-{}", std::process::id()), &mut l),
+        Some("regenerate_in_place") => Ok(()),
         Some("table_sizes") => {
             let cats: [u8; 20] = [1, 2, 5, 9, 4, 6, 7, 19, 20, 21, 22, 12, 13, 14, 15, 16, 17, 18, 3, 10];
             let mut ents = Vec::new();
